@@ -8,7 +8,7 @@ CONSTANTS
   MaxMutations = 1000
   CopyRef = TRUE
   CopyOnHit = TRUE
-  Qed = FALSE
+  Qed = TRUE
   TauTok = 100
   TauBelow = 2
   CopyOnStore = TRUE
